@@ -24,6 +24,26 @@ pub struct Msg {
     pub tag: u64,
     pub pad: Vec<u8>,
     pub slots: Vec<Slot>,
+    /// serialised last: reports an error when set, after every slot has been visited
+    pub tail: Tail,
+}
+
+pub struct Tail(pub bool);
+
+impl Serialize for Tail {
+    fn serialize<S: serde::Serializer>(&self, serializer: S) -> Result<S::Ok, S::Error> {
+        if self.0 {
+            return Err(serde::ser::Error::custom("scripted serialisation failure"));
+        }
+        serializer.serialize_u8(0)
+    }
+}
+
+impl<'de> Deserialize<'de> for Tail {
+    fn deserialize<D: serde::Deserializer<'de>>(deserializer: D) -> Result<Self, D::Error> {
+        let _ = u8::deserialize(deserializer)?;
+        Ok(Tail(false))
+    }
 }
 
 #[derive(Serialize, Deserialize)]
@@ -278,6 +298,7 @@ impl Agent {
             tag,
             pad: payload(tag, if big { self.big } else { 3 }),
             slots,
+            tail: Tail(op.get("fail").and_then(|b| b.as_bool()).unwrap_or(false)),
         };
         match self.handles.get(&h) {
             Some(Handle::S(s)) => match s.send(msg) {
